@@ -37,7 +37,7 @@ structure PassEnd (s s' : St) : Prop where
   wt : s'.waiters = s.waiters
   chanNe : (s.chan ≠ [] ∨ ((s.inflight ≠ none ∨ s.pool ≠ []) ∧ 0 < s.c)) → s'.chan ≠ []
 
-theorem pass_finishes (n : Nat) : ∀ s : St, passMeasure s < n → s.lock = .loader → s.waiters = 0 →
+theorem pass_finishes (n : Nat) : ∀ s : St, passMeasure s < n → s.lock = .loader → (s.waiters = 0 ∨ 0 < s.c) →
     ∃ acts s', acts.all noOffer = true ∧ run s acts = some s' ∧ PassEnd s s' := by
   induction n with
   | zero => intro s h; omega
@@ -67,7 +67,11 @@ theorem pass_finishes (n : Nat) : ∀ s : St, passMeasure s < n → s.lock = .lo
           (by simp [passMeasure, hin] at hm ⊢; omega) hl hw
         refine ⟨.loaderSend :: acts, s', by simp [noOffer, ha], run_cons_some h1 hr, ?_⟩
         exact ⟨pe.lock, pe.lpc, pe.infl, pe.deliv, pe.acc, pe.cc, pe.wt, fun _ => pe.chanNe (Or.inl (by simp))⟩
-      · have hf : trySendFails s := ⟨by omega, Or.inl hw⟩
+      · have hf : trySendFails s := by
+          refine ⟨by omega, ?_⟩
+          rcases hw with hw | hw
+          · exact Or.inl hw
+          · right; intro he; rw [he] at hroom; simp at hroom; omega
         refine ⟨[.loaderUnshift], { s with pool := x :: s.pool, inflight := none, lock := .free, lpc := .waiting },
           by simp [noOffer], by simp [run, step, hl, hin, hf], ?_⟩
         refine ⟨rfl, rfl, rfl, rfl, rfl, rfl, rfl, ?_⟩
@@ -80,13 +84,13 @@ theorem pass_finishes (n : Nat) : ∀ s : St, passMeasure s < n → s.lock = .lo
     progress, nobody blocked in a receive) of a queue with channelCapacity ≥ 1 there is a continuation made only of
     Poll atoms (`notify`, `tryRecv`) and loader atoms — no further Offer — after which every accepted value has
     been delivered (in acceptance order, by `C07_fifo`). -/
-theorem drain (k : Nat) : ∀ s : St, Inv s → 1 ≤ s.c → s.lock = .free → s.lpc ≠ .inpass → s.waiters = 0 →
+theorem drain (k : Nat) : ∀ s : St, Inv s → 1 ≤ s.c → s.lock = .free → s.lpc ≠ .inpass →
     s.accepted.length - s.delivered.length < k →
     ∃ acts s', acts.all noOffer = true ∧ run s acts = some s' ∧ s'.delivered = s.accepted ∧ s'.accepted = s.accepted := by
   induction k with
-  | zero => intro s _ _ _ _ _ h; omega
+  | zero => intro s _ _ _ _ h; omega
   | succ k ih =>
-    intro s hi hc hl hp hw hk
+    intro s hi hc hl hp hk
     have hin : s.inflight = none := inflight_none_of_not_loader hi.infl (by simp [hl])
     have hf := hi.fifo
     simp [hin] at hf
@@ -97,7 +101,7 @@ theorem drain (k : Nat) : ∀ s : St, Inv s → 1 ≤ s.c → s.lock = .free →
       have hi1 := step_inv h1 hi
       have hlen : s.accepted.length = s.delivered.length + (x :: rest).length + s.pool.length := by
         rw [← hf, hch]; simp [List.length_append]; omega
-      obtain ⟨acts, s', ha, hr, hd, hacc⟩ := ih _ hi1 hc hl hp hw (by simp at hlen ⊢; omega)
+      obtain ⟨acts, s', ha, hr, hd, hacc⟩ := ih _ hi1 hc hl hp (by simp at hlen ⊢; omega)
       exact ⟨.tryRecv :: acts, s', by simp [noOffer, ha], run_cons_some h1 hr, hd, hacc⟩
     | nil =>
       cases hpool : s.pool with
@@ -108,17 +112,17 @@ theorem drain (k : Nat) : ∀ s : St, Inv s → 1 ≤ s.c → s.lock = .free →
       | cons y more =>
         -- the call's token wakes the loader, its pass refills the channel, then as above
         have hwake : ∃ s2, (run s [.notify, .loaderWake] = some s2 ∨ run s [] = some s2) ∧ s2.lpc = .woke ∧ s2.lock = .free ∧
-            s2.chan = s.chan ∧ s2.pool = s.pool ∧ s2.inflight = none ∧ s2.waiters = 0 ∧ s2.c = s.c ∧
+            s2.chan = s.chan ∧ s2.pool = s.pool ∧ s2.inflight = none ∧ s2.c = s.c ∧
             s2.delivered = s.delivered ∧ s2.accepted = s.accepted := by
           cases hlp : s.lpc with
           | waiting =>
-            exact ⟨{ s with token := false, lpc := .woke }, Or.inl (by simp [run, step, hl, hlp]), rfl, hl, rfl, rfl, hin, hw, rfl, rfl, rfl⟩
-          | woke => exact ⟨s, Or.inr (by simp [run]), hlp, hl, rfl, rfl, hin, hw, rfl, rfl, rfl⟩
+            exact ⟨{ s with token := false, lpc := .woke }, Or.inl (by simp [run, step, hl, hlp]), rfl, hl, rfl, rfl, hin, rfl, rfl, rfl⟩
+          | woke => exact ⟨s, Or.inr (by simp [run]), hlp, hl, rfl, rfl, hin, rfl, rfl, rfl⟩
           | inpass => exact absurd hlp hp
-        obtain ⟨s2, hr2, h2lpc, h2lock, h2chan, h2pool, h2in, h2w, h2c, h2d, h2a⟩ := hwake
+        obtain ⟨s2, hr2, h2lpc, h2lock, h2chan, h2pool, h2in, h2c, h2d, h2a⟩ := hwake
         have h3 : step s2 .loaderLock = some { s2 with lock := .loader, lpc := .inpass } := by simp [step, h2lpc, h2lock]
         obtain ⟨pacts, s4, hpa, hpr, pe⟩ := pass_finishes (passMeasure { s2 with lock := .loader, lpc := .inpass } + 1)
-          { s2 with lock := .loader, lpc := .inpass } (by omega) rfl h2w
+          { s2 with lock := .loader, lpc := .inpass } (by omega) rfl (Or.inr (by simp [h2c]; omega))
         have hne : s4.chan ≠ [] := pe.chanNe (Or.inr ⟨Or.inr (by simp [h2pool, hpool]), by simp [h2c]; omega⟩)
         -- assemble the prefix run  s → s2 → s4
         have hpre : ∃ pre, pre.all noOffer = true ∧ run s pre = some s4 := by
@@ -139,7 +143,7 @@ theorem drain (k : Nat) : ∀ s : St, Inv s → 1 ≤ s.c → s.lock = .free →
           have hlen : s.accepted.length = s.delivered.length + s.pool.length := by
             rw [← hf, hch]; simp
           obtain ⟨acts, s', ha, hr, hd, hacc⟩ := ih _ hi5 (by simp [pe.cc, h2c]; exact hc) pe.lock (by simp [pe.lpc])
-            (by simp [pe.wt, h2w]) (by simp [h4d, h4a]; rw [hpool] at hlen; simp at hlen; omega)
+            (by simp [h4d, h4a]; rw [hpool] at hlen; simp at hlen; omega)
           refine ⟨pre ++ (.tryRecv :: acts), s', by simp [noOffer, hpre1, ha], ?_, ?_, ?_⟩
           · rw [run_append, hpre2]; simp; exact run_cons_some h5 hr
           · rw [hd]; simp [h4a]
